@@ -3,6 +3,7 @@ package c04
 import (
 	"bytes"
 	"fmt"
+	"strings"
 	"time"
 
 	"perkeep.org/pkg/blob"
@@ -91,6 +92,33 @@ func fileOverBytes(name, fileName string, by hs.Blob, chunks ...hs.Blob) fileSpe
 		size += len(c.Data)
 	}
 	j := fmt.Sprintf("{\"camliVersion\": 1,\n  \"camliType\": \"file\",\n  \"fileName\": %q,\n  \"parts\": [\n    {\"bytesRef\": %q, \"size\": %d}\n  ],\n  \"unixMtime\": \"2014-05-13T16:53:20Z\"\n}", fileName, by.Ref.String(), size)
+	f.blob = hs.Mk(name, []byte(j), "")
+	f.wholeRef = blob.RefFromBytes(f.content)
+	return f
+}
+
+// bytesGroup is one nested "bytes" schema blob with its chunks.
+type bytesGroup struct {
+	by     hs.Blob
+	chunks []hs.Blob
+}
+
+// fileOverGroups makes a file schema blob whose parts are bytesRefs, one per group.
+func fileOverGroups(name, fileName string, groups ...bytesGroup) fileSpec {
+	f := fileSpec{fileName: fileName}
+	var parts []string
+	for _, g := range groups {
+		size := 0
+		for _, c := range g.chunks {
+			if len(f.content) > 0 {
+				f.bounds = append(f.bounds, len(f.content))
+			}
+			f.content = append(f.content, c.Data...)
+			size += len(c.Data)
+		}
+		parts = append(parts, fmt.Sprintf("    {\"bytesRef\": %q, \"size\": %d}", g.by.Ref.String(), size))
+	}
+	j := fmt.Sprintf("{\"camliVersion\": 1,\n  \"camliType\": \"file\",\n  \"fileName\": %q,\n  \"parts\": [\n%s\n  ],\n  \"unixMtime\": \"2014-05-13T16:53:20Z\"\n}", fileName, strings.Join(parts, ",\n"))
 	f.blob = hs.Mk(name, []byte(j), "")
 	f.wholeRef = blob.RefFromBytes(f.content)
 	return f
